@@ -316,7 +316,7 @@ def new_rule(ctx, am):
     args = [src(a) for a in calls[0].args]
     want = [inst, other, '%s.rel_id' % lv, '%s.phrase' % lv]
     r.check(args == want, 'relate(%s): the link comes from self.links, so the new instance is the from-side' % ', '.join(want), calls[0],
-            construct=Q, key='relate-direction',
+            construct=Q, key='relate-direction relate(%s)' % ', '.join(args),
             msg='MetaClass.new calls relate(%s); `%s` is taken from self.links, i.e. it leads FROM the new instance TO the partner with '
                 'phrase %s.phrase, so _find_link resolves the intended link only for relate(%s). With phrases (reflexive / multiple '
                 'formalisations) the opposite direction is linked: the partner receives the referential value instead of the new instance'
